@@ -38,6 +38,14 @@ def main(argv):
         f.write(json.dumps(meta) + '\n')
         f.close()
         return 3
+    # M6 runtime contracts ride along on every workload (after setup(): the
+    # kernel overlay / bottleneck configuration must precede photutils imports)
+    if os.environ.get('PV_CONTRACTS', '1') == '1' and not getattr(mod, 'NO_CONTRACTS', False):
+        try:
+            from pv import contracts
+            meta['contracts_installed'] = contracts.install()
+        except Exception:  # noqa: BLE001
+            meta['contracts_error'] = traceback.format_exc()[-800:]
     f.write(json.dumps(meta) + '\n')
 
     classes = mod.CLASSES
@@ -72,6 +80,9 @@ def main(argv):
         ran += 1
     tail = {'kind': 'tail', 'shard': shard, 'ran': ran, 'wall_s': time.time() - t0,
             'reach': reach.counts()}
+    if 'contracts_installed' in meta:
+        from pv import contracts
+        tail['contracts'] = contracts.report()
     if hasattr(mod, 'teardown'):
         try:
             tail['teardown'] = mod.teardown() or {}
